@@ -1,6 +1,7 @@
 package main
 
 import (
+	"go/ast"
 	"go/token"
 
 	"golang.org/x/tools/go/ssa"
@@ -33,6 +34,35 @@ func (e *Exec) lateFor(fn *ssa.Function) *lateInfo {
 		return li
 	}
 	li := &lateInfo{deferred: map[ssa.Instruction]bool{}, chain: map[*ssa.Store][]ssa.Instruction{}}
+	// left-hand sides of the single assignments `lhs = rhs` in the function's source: only address
+	// computations written inside such a left-hand side may move (a pointer taken by an earlier statement,
+	// `p := &a[i]; ...; *p = f()`, is evaluated where it stands by both compilers)
+	type span struct{ lo, hi token.Pos }
+	var lhss []span
+	if syn := fn.Syntax(); syn != nil {
+		ast.Inspect(syn, func(n ast.Node) bool {
+			if lit, isLit := n.(*ast.FuncLit); isLit && n != syn {
+				_ = lit
+				return false // nested function literals are separate ssa functions
+			}
+			if as, ok := n.(*ast.AssignStmt); ok && len(as.Lhs) == 1 && len(as.Rhs) == 1 && as.Tok == token.ASSIGN {
+				lhss = append(lhss, span{as.Lhs[0].Pos(), as.Lhs[0].End()})
+			}
+			return true
+		})
+	}
+	lhsOf := func(p token.Pos) (span, bool) {
+		if !p.IsValid() {
+			return span{}, false
+		}
+		best, found := span{}, false
+		for _, sp := range lhss {
+			if sp.lo <= p && p < sp.hi && (!found || sp.hi-sp.lo < best.hi-best.lo) {
+				best, found = sp, true
+			}
+		}
+		return best, found
+	}
 	for _, b := range fn.Blocks {
 		pos := map[ssa.Instruction]int{}
 		lastCallBefore := make([]int, len(b.Instrs)) // index of the last call strictly before position k, or -1
@@ -96,6 +126,26 @@ func (e *Exec) lateFor(fn *ssa.Function) *lateInfo {
 				return true
 			}
 			if !visit(st.Addr) || len(order) == 0 {
+				continue
+			}
+			// the address expression must be written inside the left-hand side of this assignment
+			sp, inLhs := lhsOf(st.Pos())
+			if !inLhs {
+				continue
+			}
+			okPos := true
+			for _, m := range order {
+				switch m.(type) {
+				case *ssa.IndexAddr, *ssa.FieldAddr:
+					if mp := m.Pos(); mp.IsValid() && (mp < sp.lo || mp >= sp.hi) {
+						okPos = false
+					}
+				}
+			}
+			if root, isIns := st.Addr.(ssa.Instruction); !isIns || !root.Pos().IsValid() || root.Pos() < sp.lo || root.Pos() >= sp.hi {
+				okPos = false
+			}
+			if !okPos {
 				continue
 			}
 			// every referrer of a chain member must itself be in the chain (or be the store's address use)
